@@ -225,6 +225,11 @@ func (b *blob) Cache(offset int64, size int64, opts ...Option) error {
 	fetchSize := b.chunkSize * (b.prefetchChunkSize / b.chunkSize)
 
 	end := offset + size
+	if limit := b.size + fetchSize; end > limit || end < offset {
+		// "size" can come from the (untrusted) TOC (offset of the prefetch landmark);
+		// there is nothing to fetch beyond the blob.
+		end = limit
+	}
 	for i := offset; i < end; i += fetchSize {
 		i, l := i, fetchSize
 		if i+l > end {
